@@ -8,6 +8,8 @@ out=seeded/RESULTS-$tier.txt; tmp=$(mktemp -d)
 run1() {
   id=$1; tier=$2; tmp=$3
   prop=$(python3 -c "import json;print(json.load(open('seeded/$id/meta.json'))['property'])")
+  stale=$(python3 -c "import json;print(json.load(open('seeded/$id/meta.json')).get('stale',''))")
+  if [ -n "$stale" ]; then echo "$id $prop $tier not-applicable :: $stale" > $tmp/$id.line; return; fi
   keep=$tmp/replays-$id
   o=$(MUTRUN_KEEP_REPLAYS=$keep tools/mutrun.sh seeded/$id/patch.diff $prop $tier 2>&1); rc=$?
   cls=$(python3 - "$keep" <<'PY'
